@@ -13,6 +13,7 @@ def main():
     tier = os.environ.get('VERIF_TIER', 'quick')
     P = facts.load('prod')
     res = {}
+    allv = {}
     for pid in ids:
         mod = importlib.import_module('rules.' + pid)
         rep = core.Report(pid, tier)
@@ -27,10 +28,14 @@ def main():
             rc = 2; buf.write(traceback.format_exc())
         out = buf.getvalue()
         v = [l for l in out.splitlines() if l.startswith('violation:') or l.startswith('ANALYSIS-BROKEN') or 'Error' in l]
+        allv[pid] = {'rc': rc, 'violations': [l[11:].split(' at ', 1)[0] for l in out.splitlines() if l.startswith('violation:')],
+                     'lines': [l[:400] for l in out.splitlines() if l.startswith('violation:')]}
         print('%s exit=%d violations=%d' % (pid, rc, sum(1 for l in v if l.startswith('violation:'))))
         for l in v[:6]:
             print('    ' + l[:300])
         res[pid] = rc
+    if os.environ.get('VERIF_RUNALL_JSON'):
+        json.dump(allv, open(os.environ['VERIF_RUNALL_JSON'], 'w'), indent=1)
     return 0
 
 if __name__ == '__main__':
